@@ -151,10 +151,11 @@ def pack(data, kind, path, inner_name='inner.log', mtime=0, level=None):
         open(path, 'wb').write(bz2.compress(data, 9 if level is None else level))
     elif kind == 'xz':
         open(path, 'wb').write(lzma.compress(data, format=lzma.FORMAT_XZ, check=lzma.CHECK_CRC32))
-    elif kind == 'lz4':
+    elif kind in ('lz4', 'lz4f'):
+        # lz4f: the writer flushes every 40 000 bytes, so the frame has non-final blocks shorter than 64 KiB
         tmp = path + '.raw'
         open(tmp, 'wb').write(data)
-        rc, out, err, _ = core.run([core.S4H, 'pack', 'lz4', tmp, path])
+        rc, out, err, _ = core.run([core.S4H, 'pack', 'lz4', tmp, path] + (['40000'] if kind == 'lz4f' else []))
         os.unlink(tmp)
         if rc != 0:
             raise RuntimeError('lz4 pack failed: ' + err.decode())
@@ -169,7 +170,7 @@ def pack(data, kind, path, inner_name='inner.log', mtime=0, level=None):
     return path
 
 
-SUFFIX = {'plain': '', 'gz': '.gz', 'bz2': '.bz2', 'xz': '.xz', 'lz4': '.lz4', 'tar': '.tar'}
+SUFFIX = {'plain': '', 'gz': '.gz', 'bz2': '.bz2', 'xz': '.xz', 'lz4': '.lz4', 'lz4f': '.lz4', 'tar': '.tar'}
 
 
 # ------------------------------------------------------------------ running s4
